@@ -353,8 +353,10 @@ fn format_volume(dev: &SparseDev, spec: &J, vals: &mut Vals, rule: &mut DefaultR
     // default rules
     let kind = if fat32 { 2 } else { 1 };
     rule.regions.push((fat_start, fat_len, kind));
-    if nfats == 2 {
-        rule.regions.push((fat2_start, fat_len, kind));
+    // (with three and more copies - legal, rare - the library keeps only the first one up to date; the others are formatted
+    //  like the first and then belong to nobody: fat2_start stays 0 and no call may write there)
+    for k in 1..nfats {
+        rule.regions.push((fat_start + k * fat_len, fat_len, kind));
     }
     rule.regions.push((data_start, count * bpc + tail, 3));
     dev.0.borrow_mut().rule = rule.clone();
@@ -388,6 +390,9 @@ fn format_volume(dev: &SparseDev, spec: &J, vals: &mut Vals, rule: &mut DefaultR
     let lab = name11(label);
     if fat32 {
         bs[36..40].copy_from_slice(&fat_len.to_le_bytes());
+        // extended flags: bit 7 = mirroring off, bits 0..3 = the active FAT then (the library mirrors regardless, which keeps
+        // every copy right whatever the flags say)
+        bs[40..42].copy_from_slice(&(ju(spec, "ext_flags", 0) as u16).to_le_bytes());
         bs[44..48].copy_from_slice(&root_clus.to_le_bytes());
         bs[48..50].copy_from_slice(&(fsinfo as u16).to_le_bytes());
         let bk: u16 = if resv > 6 && fsinfo != 6 { 6 } else { 0 }; // backup boot sector, when there is room for it
@@ -469,8 +474,8 @@ fn format_volume(dev: &SparseDev, spec: &J, vals: &mut Vals, rule: &mut DefaultR
             }
         }
         f.put(fat_start + s, &data);
-        if nfats == 2 {
-            f.put(fat2_start + s, &data);
+        for k in 1..nfats {
+            f.put(fat_start + k * fat_len + s, &data);
         }
     }
     // info sector
